@@ -1014,6 +1014,13 @@ fn union_single_and_range(
             }
             let mut indices = indicies.iter().collect::<Vec<_>>();
             indices.sort();
+            if indices.is_empty() {
+                // an empty string and a range without a character in it: the union is the string
+                return Ok(Some(SubtypeElements::SingleValue {
+                    value: ASN1Value::String(s1.clone()),
+                    extensible: false,
+                }));
+            }
             let mut last = indices[0];
             let mut contiguous = true;
             for v in indices[1..].iter() {
